@@ -486,6 +486,41 @@ func environmentsPart(r *ev.Report, dir string) {
 	r.Extra["startup_environments"] = len(cases)
 }
 
+// rejectionsPart: files that cannot be read as a configuration - cut off in the first line
+// or later, with and without a final line break, with CRLF, a byte order mark, a NUL or
+// invalid UTF-8 - go through servitor's real start-up in a child process. Rejecting means
+// a diagnostic and exit status 1; a crash (a Go panic trace, exit status 2) or running on
+// is neither.
+func rejectionsPart(r *ev.Report, dir string) {
+	fragments := []string{"[network", "cache_size =", `primary = "#aabbcc`, "[style.colors]\nprimary = \"#aabbcc", "hook = [", "x = ", "= 1", "[", `"`, "[[feeds]", "a.b.c = {",
+		"preload_amount = 1 2", "a = 1\x00", "a = \"\xff\"", "[network]\ncache_size = 1\ncache_size = 2", "'''", `a = """`}
+	var files []string
+	for _, f := range fragments {
+		for _, before := range []string{"", "\n", "# comment\n", "\r\n", "\ufeff", "[media]\r\n"} {
+			for _, after := range []string{"", "\n", "\r\n", " ", "\r"} {
+				files = append(files, before+f+after)
+			}
+		}
+	}
+	var done int64
+	par.For(int64(len(files)), func(i int64) {
+		text := files[i]
+		if _, err, pan := loadText(dir, text); err == nil && pan == "" {
+			return // not malformed after all: nothing to say here
+		}
+		code, out := probe(dir, 100000+int(i), text)
+		atomic.AddInt64(&done, 1)
+		switch {
+		case code == 1 && !strings.Contains(out, "panic") && !strings.Contains(out, "goroutine ") && !strings.Contains(out, "PROBE-") && strings.TrimSpace(out) != "":
+		default:
+			r.Violation("config:rejection-through-start-up", map[string]any{"case": cfgCase{text, "reject"}, "exit": code, "output": tail(out, 800),
+				"msg": "a file that cannot be read as a configuration must end start-up with a diagnostic and exit status 1"})
+		}
+	})
+	r.Eval(done)
+	r.Extra["startup_rejections"] = done
+}
+
 func probe(dir string, n int, text string) (exit int, out string) {
 	home := filepath.Join(dir, fmt.Sprintf("p%d", n))
 	os.MkdirAll(filepath.Join(home, "servitor"), 0o755)
@@ -521,6 +556,7 @@ func main() {
 			"(ii) TOML files over the documented keys: full product of hook(8) x cache_size(7) x preload_amount(8) x timeout_seconds(8) x feeds(5) with typical colours, full product of the four colours (6^4), and every single and pairwise combination with unknown keys/tables and a syntax error, "+
 			"through the real parser against a reference acceptance predicate (reject / accept / range-checked either way); (iii) every accepted configuration of (ii)'s first product with at most two keys set (all singles and all pairs) starts a probe process driving the real UI (open, move, select, follow and open links, history, creators, every configured feed and an unknown one, resize); "+
 			"(iv) six start-up environments (file empty / absent under XDG_CONFIG_HOME, only HOME, neither variable, both empty, file under $HOME/.config): the configuration in effect after servitor's own init must be the same defaults, with well-formed colours, and the HOME file must be used; "+
+			"(v) 510 unreadable files (17 fragments cut off mid-value x 6 beginnings incl. CRLF and a byte order mark x 5 endings incl. none) through the real start-up in a child process: a diagnostic and exit status 1, never a crash; "+
 			"distinct_nontrivial = configuration files that deviate from the defaults")
 	dir, _ := os.MkdirTemp(os.Getenv("VERIF_SCRATCH"), "c19")
 	defer os.RemoveAll(dir)
@@ -623,6 +659,7 @@ func main() {
 		}
 	}
 	environmentsPart(r, dir)
+	rejectionsPart(r, dir)
 	r.Sample(cfgCase{"[media]\nhook = []\n[network]\ncache_size = 0\n", "range"})
 	r.Sample(cfgCase{"[style.colors]\nprimary = \"#GGGGGG\"\n", "reject"})
 	// missing file, directory in place of the file, defaults
